@@ -23,7 +23,7 @@ var Nullary = []string{
 	"split_doc", "unique", "explode(.)", "not", "sort", "reverse", "any", "all", "parent", "parent(0)", "parent(1)", "parent(2)", "parent(7)", "keys", "key", "is_key",
 	"filename", "file_index", "fi", "path", "to_entries", "from_entries", "style", "tag", "type", "kind", "anchor", "alias",
 	"line_comment", "head_comment", "foot_comment", "document_index", "di", "upcase", "downcase", "ascii_downcase", "trim", "to_string", "tostring",
-	"min", "max", "pivot", "envsubst", "collect", "..", "...", ".", ".[]", "first", "error",
+	"(min)", "(max)", "pivot", "envsubst", "collect", "..", "...", ".", ".[]", "first", "error",
 }
 
 var Unary = []string{
